@@ -18,7 +18,7 @@ from sim.loadsim import LoadSim, ScheduleObserver, SimParamSource, SimPollRunner
 from sim.simes import Installed, Outcome, SimES
 from sim.vclock import EPOCH, Proc, VClock
 
-FAULTS = ["http-400", "http-404", "http-500", "http-503x2", "http-503x4", "connx2", "timeout", "timeout-last", "slow"]
+FAULTS = ["http-400", "http-404", "http-500", "http-503x2", "http-503x4", "connx2", "disconnectx1", "disconnectx2", "timeout", "timeout-last", "slow"]
 
 
 # ---------------------------------------------------------------------------------------------
@@ -444,6 +444,14 @@ class LoadgenHarness(Harness):
                     if n < 2:
                         fired_kind = "conn-error-retried"
                         out = Outcome(delay=d, kind="conn-error")
+                    else:
+                        out = Outcome(delay=d, body_delay=bd)
+                elif fault.startswith("disconnectx"):
+                    # the server closes the connection: the first time aiohttp re-sends the (idempotent) request itself, the second
+                    # time the error surfaces and the transport retries
+                    if n < int(fault[11:]):
+                        fired_kind = "server-disconnected"
+                        out = Outcome(delay=d, kind="disconnect")
                     else:
                         out = Outcome(delay=d, body_delay=bd)
                 elif fault == "timeout":
